@@ -473,7 +473,7 @@ BORDER_STRINGS = ["", " ", "a b", "NULL", "null", "Null", "TRUE", "true", "False
                   "2001-01-01", "2001-001", "10:00", "10:00:60", "x-", "a-\nb", "10 - \n20 km", "x-\t\nrest", "a -  \r\n b", "it's", 'say "hi"', "both ' and \"",
                   "tab\there", "two  blanks", " lead", "trail ", "line1\nline2", "a\r\nb", "semi;colon", "a=b",
                   "(paren)", "{brace}", "<angle>", "#hash", "/* c */", "*/", "a*", "/x", "caf\xe9", "\xb5m",
-                  "snow☃", "x" * 45, "word " * 20, "a-b", "push-broom", "high-resolution", "semi-major-axis", "-lead", "mid - dle", "_under", "under_", "9lives", "ok_name", "N:S", "^PTR"]
+                  "snow☃", "x" * 45, "word " * 20, "bell\x07", "esc\x1b[0m", "del\x7f", "nul\x00x", "ctl\x01\x1f", "a-b", "push-broom", "high-resolution", "semi-major-axis", "-lead", "mid - dle", "_under", "under_", "9lives", "ok_name", "N:S", "^PTR"]
 
 
 LITERAL_STRINGS = literal_matrix("OMNI") + ["T12", "1_000", "\u0661\u0662", "1__0", "0x1F", "12:00-5", "10:00+5:30",
